@@ -609,7 +609,10 @@ func init() {
 				"cross-adds":            {R("bg", "HandleBG", "foo", "addother"), R("fg", "Handle", "foo", "addother"), E("FOO"), E("FOO")},
 				"remove-only":           {R("fg", "Handle", "foo", "rmself"), E("FOO"), E("FOO"), R("fg", "HandleFunc", "foo", ""), E("FOO")},
 				"bg-rmprev+other-name":  {R("bg", "HandleBG", "foo", ""), R("bg", "HandleBG", "baz", ""), R("bg", "HandleBG", "Foo", "rmprev"), E("FOO"), E("BAZ"), E("FOO")},
-				"toplevel-remove-first": {R("fg", "Handle", "foo", ""), R("fg", "Handle", "foo", ""), R("fg", "Handle", "foo", ""), {Kind: "rm", Idx: 0}, E("FOO"), {Kind: "rm", Idx: -1}, E("FOO")},
+				// a handler at the head of a longer list removes itself while the dispatcher is still starting its siblings
+				"rmself-head-of-five":      {R("fg", "Handle", "foo", "rmself"), R("fg", "Handle", "foo", ""), R("fg", "Handle", "Foo", ""), R("fg", "HandleFunc", "foo", ""), R("fg", "Handle", "FOO", ""), E("FOO"), E("FOO")},
+				"bg-rmself-second-of-five": {R("bg", "HandleBG", "foo", ""), R("bg", "HandleBG", "foo", "rmself"), R("bg", "HandleBG", "Foo", ""), R("bg", "HandleBG", "foo", ""), R("bg", "HandleBG", "FOO", ""), E("FOO"), E("FOO")},
+				"toplevel-remove-first":    {R("fg", "Handle", "foo", ""), R("fg", "Handle", "foo", ""), R("fg", "Handle", "foo", ""), {Kind: "rm", Idx: 0}, E("FOO"), {Kind: "rm", Idx: -1}, E("FOO")},
 			}
 			for n, h := range sel {
 				bs := []explore.Budget{{0, 0}, {1, 0}, {2, 0}}
